@@ -2,9 +2,10 @@
 Model of the pattern matcher of pfst (src/fst/match.py).  Import-free: linked into the native driver.
 
 Part L  — the LIST matcher: `_match__inside_list` / `_match__inside_list_quantifier` mirrored as written (two counting
-          phases, static tags appended once per completed phase, greedy back-off `del matches[idx]; tgt_iter.idx -= 1`,
-          non-greedy extension, sublist bodies matched with `allow_partial=True` against the rest of *the sublist*
-          only), over element sequences of an abstract alphabet (one letter per element).
+          phases, static tags appended when the minimum count is reached, greedy back-off `del matches[idx];
+          tgt_iter.idx = tgt_idxs.pop()`, non-greedy extension, sublist bodies matched with `allow_partial=True`
+          against the rest of *the sublist* only), over element sequences of an abstract alphabet (one letter per
+          element).
 Part S  — the SPEC: ordered list-of-successes semantics of the same pattern language (what a backtracking regular
           expression engine enumerates, in priority order).  Written independently of part L: only the element matcher
           `matchE` and the tag-visibility function `visible` are shared.
@@ -152,19 +153,18 @@ def phase (q : QSpec) (once : Dict → Nat → Option Entry) (ctx : Dict) (count
       | none => (f + 1, st, false)
     else (f + 1, st, true)
 
-/-- the `else:` of the counting loop: `if static_tags := pat.static_tags: tagss.append(static_tags)` -/
+/-- the `else:` of the first counting loop: `if not phase and (static_tags := pat.static_tags): tagss.append(static_tags)` -/
 def addStatic (q : QSpec) (st : QState) : QState :=
   if q.static.isEmpty then st else { st with nstatic := st.nstatic + 1 }
 
-/-- greedy back-off step: `del matches[matches_del_idx]; tgt_iter.idx -= 1; count -= 1` with
-`matches_del_idx = -1 if pat_tag or not static_tags else -2`.  When `static_tags` was appended twice (both counting
-phases completed) index -2 of `tagss` is the first copy of the static tags, not the last iteration. -/
-def dropOne (q : QSpec) (st : QState) : QState :=
-  let st' :=
-    if q.tag.isSome || q.static.isEmpty then { st with entries := st.entries.dropLast }
-    else if st.nstatic ≥ 2 then { st with nstatic := st.nstatic - 1 }
-    else { st with entries := st.entries.dropLast }
-  { st' with idx := st'.idx - 1, count := st'.count - 1 }
+/-- greedy back-off step: `del matches[matches_del_idx]; tgt_iter.idx = tgt_idxs.pop(); count -= 1`.
+`matches_del_idx` is -1 in the `matches` list of a tagged quantifier (or in `tagss` without static tags) and -2 in
+`tagss` when the static-tags dictionary (appended once) follows the iterations: in every case the last iteration.
+`tgt_idxs` holds the target index at which each kept iteration started (`Entry.start`). -/
+def dropOne (_q : QSpec) (st : QState) : QState :=
+  { st with entries := st.entries.dropLast,
+            idx := (match st.entries.getLast? with | some e => e.start | none => st.idx),
+            count := st.count - 1 }
 
 /-- greedy: `while True: m = rest; if m: break; if count == last_try_count: fail; <dropOne>` (recursion on `count`) -/
 def backOff (q : QSpec) (rest : Dict → Nat → Option (Dict × Nat)) (ctx : Dict) : Nat → QState → Option (Dict × Nat)
@@ -202,8 +202,7 @@ def matchQuant (fuel : Nat) (q : QSpec) (once : Dict → Nat → Option Entry) (
   else
     let st1 := addStatic q st1
     if q.greedy then
-      let (_, st2, done2) := phase q once ctx q.mx f1 st1
-      let st2 := if done2 then addStatic q st2 else st2
+      let (_, st2, _) := phase q once ctx q.mx f1 st1
       backOff q rest ctx st2.count st2
     else
       tryMore q once rest ctx f1 st1
@@ -259,14 +258,15 @@ def matchList (ps : List LPat) (xs : List Nat) : Option Dict :=
 
 /-- All ways to iterate a quantifier body from `(count, i, entries)`, in the priority order of a backtracking engine:
 greedy tries one more iteration before stopping, non-greedy stops before trying one more.  Each result is the tag
-dictionary of the whole quantifier and the index after it.  An iteration of an unbounded quantifier must advance. -/
+dictionary of the whole quantifier and the index after it.  An iteration of an unbounded quantifier must advance.
+The static tags of the quantifier are bound (and visible to back-references) once the minimum count is reached. -/
 def allIter (q : QSpec) (body : Dict → Nat → List Entry) (ctx : Dict) : Nat → Nat → Nat → List Entry → List (Dict × Nat)
   | 0, c, i, es => if q.mn ≤ c then [(visible q es 1, i)] else []
   | f + 1, c, i, es =>
     let stop := if q.mn ≤ c then [(visible q es 1, i)] else []
     let more :=
       if ltTo c q.mx then
-        (body (ctx ++ visible q es 0) i).flatMap (fun e =>
+        (body (ctx ++ visible q es (if q.mn ≤ c then 1 else 0)) i).flatMap (fun e =>
           if q.mx.isSome || i < e.stop then allIter q body ctx f (c + 1) e.stop (es ++ [e]) else [])
       else []
     if q.greedy then more ++ stop else stop ++ more
@@ -464,6 +464,13 @@ def leafTypes (K : Kinds) : List Nat → List Nat → List Nat
       let acc' := union acc la
       if isFull K acc' then acc' else leafTypes K ks acc'
 
+/-- `isinstance(p, type) or p is ... or (p.__class__ is MTYPES and not p.fields)`: decided by the node type alone -/
+def typeOnly : Pat → Bool
+  | .wild => true
+  | .type _ => true
+  | .types _ => true
+  | _ => false
+
 mutual
 /-- `_LEAF_ASTS_FUNCS[pat.__class__](pat)`: `none` = indeterminate (check every node) -/
 def leafAsts (K : Kinds) : Pat → Option (List Nat)
@@ -473,12 +480,14 @@ def leafAsts (K : Kinds) : Pat → Option (List Nat)
   | .types ks => some (leafTypes K ks [])                   -- `MTYPES._leaf_asts`
   | .m p _ _ => leafAsts K p                                -- `M_Pattern_One._leaf_asts`
   | .mnot p _ _ =>                                          -- `MNOT._leaf_asts`
-    match leafAsts K p with
-    | none => none
-    | some la =>
-      if la.isEmpty then some K.all
-      else if isFull K la then some []
-      else some (diff K.all la)
+    if !typeOnly p then some K.all                          -- inner leaf set is only an upper bound: no complement
+    else
+      match leafAsts K p with
+      | none => none
+      | some la =>
+        if la.isEmpty then some K.all
+        else if isFull K la then some []
+        else some (diff K.all la)
   | .mor ps => leafOr K ps []                               -- `MOR._leaf_asts`
   | .mand ps => leafAnd K ps K.all                          -- `MAND._leaf_asts`
   | .mmaybe _ _ _ => some K.all                             -- `_leaf_asts_default`: `AST2ASTSLEAF[AST]`
